@@ -129,6 +129,16 @@ class Ctx:
             # another tree (VERIF_REPO) must not replace it between build and use
             self.vh_bin = os.path.join(self.work, "vh-" + sub)
             args = ["go", "build", "-tags", "verif", "-o", self.vh_bin]
+            covdir = None
+            if os.environ.get("VERIF_COVER"):
+                # tools/cover.py: statement coverage of the library under this check's operations. The counters are
+                # only written by a binary built from a package directory, not from a list of files
+                covdir = os.path.join(HARNESS, "cmd", "zcov%d" % os.getpid())
+                shutil.rmtree(covdir, ignore_errors=True); os.makedirs(covdir)
+                for f in files:
+                    shutil.copy(os.path.join(HARNESS, f), covdir)
+                files = ["./cmd/" + os.path.basename(covdir)]
+                args += ["-cover", "-coverpkg=github.com/xelaj/mtproto/..."]
             if os.path.realpath(self.repo) != "/repo":
                 mf = os.path.join(self.work, "go.mod")
                 txt = open(os.path.join(HARNESS, "go.mod")).read().replace("=> /repo", "=> " + self.repo)
@@ -137,6 +147,8 @@ class Ctx:
                 args += ["-modfile", mf]
             args += files
             rc, out = run(args, cwd=HARNESS, env=env, timeout=900)
+            if covdir:
+                shutil.rmtree(covdir, ignore_errors=True)
         if rc != 0:
             self.obligation("go build -tags verif (harness + /repo working tree)", False, out[-3000:])
             return False
@@ -201,6 +213,8 @@ class Ctx:
         os.makedirs(d, exist_ok=True)
         env = dict(os.environ)
         env.setdefault("GOMEMLIMIT", "6GiB")
+        if os.environ.get("VERIF_COVER"):
+            env["GOCOVERDIR"] = os.environ["VERIF_COVER"]
         rc, out = run([getattr(self, "vh_bin", None) or vh_path(self.prop), sub, "-dir", d] + extra_args, cwd=self.work, env=env, timeout=timeout,
                       limit_mem=True)
         return rc, out
